@@ -120,6 +120,14 @@ def equiv_check(oracle, ev, p, q, p_runs, exempt):
     return aside
 
 
+def sstr(p):
+    """str(procedure) that cannot take the oracle down (printing an ill-formed result may itself fail)"""
+    try:
+        return str(p)
+    except Exception as ex:
+        return f"<unprintable: {type(ex).__name__}: {ex}>"[:200]
+
+
 def jsonable_val(val):
     ctrl, lay, cfg0 = val
     return {"ctrl": ctrl, "layouts": lay, "cfg0": {f"{k[0]}.{k[1]}": v for k, v in cfg0.items()}}
@@ -237,6 +245,8 @@ def forward_check(src, dst, report, max_implicit=0, between=()):
                             common = anc if common is None else (common & anc)
                         encl = False
                         for cp in (common or ()):
+                            if tp[: len(cp)] == cp:
+                                continue  # an ancestor of (or the same as) the forwarded position: outer context
                             try:
                                 if type(_resolve(droot, cp)) is type(N):
                                     encl = True
